@@ -131,8 +131,29 @@ def reset_run_state():
     seams.VCLOCK.reset()
     seams.REGEX.reset('pass')
     seams.LOCKS.reset()
+    clear_active_marks()
     import linecache
     linecache.clearcache()                # source-line lookups (traceback machinery) read files again: visible to the I/O seam
+
+
+def clear_active_marks():
+    """ContextVars of the package (the 'evaluation in progress' mark) are process state like any module global: no run
+    starts with one left set by an earlier run. Also used after an injected asynchronous kill: a kill delivered inside
+    the finally block that clears the mark cannot be cleaned up by any code (stated limit of trace_kill)."""
+    import contextvars
+    n = 0
+    mods = [m for name, m in list(sys.modules.items()) if m is not None and (name == 'smartquery' or name.startswith('smartquery.'))]
+    mods += [m for m in TWIN_MODULES.values() if m is not None]
+    for mod in mods:
+        for v in list(vars(mod).values()):
+            if isinstance(v, contextvars.ContextVar):
+                try:
+                    if v.get(None) is not None:
+                        v.set(None)
+                        n += 1
+                except Exception:
+                    pass
+    return n
 
 
 class pristine_context:
